@@ -137,6 +137,13 @@ def run(R):
                 continue
             fn = field_names(it.origin(args[i]))
             R.check(fn[-1:] == [wn], 'C15.R3', 'connector-arg:%s' % wn, site(it, c[0][0]), 'TlsConnector::new argument %d = %s (required self.%s)' % (i, show(it.origin(args[i]))[:60], wn))
+        # the URI whose host is the fallback name is the URI that is dialled (endpoint.uri), never the origin override
+        sites = call_sites_in_crate(tonic, pat='ClientTlsConfig::into_tls_connector')
+        R.floor('C15.R3', 'into_tls_connector call sites', len(sites), 1)
+        for cb_, cbb, ct in sites:
+            ua = cb_.origin(ct['args'][1])
+            oku = mentions_field(ua, 'uri') and not mentions_field(ua, 'origin') and not term_contains(ua, lambda x: is_call(x) and x[3] in ('unwrap_or', 'or', 'unwrap_or_else', 'or_else'))
+            R.check(oku, 'C15.R3', 'verified-host-is-dialled-uri:%s' % short(cb_.path).split('::')[-1], site(cb_, cbb), 'into_tls_connector(uri) receives %s (the endpoint\'s own uri; the `origin` override only changes the :authority sent)' % show(ua)[:100])
         nw = tonic.body('channel::service::tls::TlsConnector::new')
         sn = [(bb, t) for bb, t in nw.calls(name='try_from') if 'ServerName' in (t.get('self_ty') or '') + (t.get('fn') or '') + (t.get('resolved') or '')]
         R.check(len(sn) == 1 and show(strip_refs(nw.origin(sn[0][1]['args'][0]))).startswith('arg4'), 'C15.R3', 'ServerName-from-domain-arg', site(nw), 'ServerName::try_from(domain)')
